@@ -577,6 +577,8 @@ func (a *jwtAuthenticator) calculateCacheKey(ep *endpoint.Endpoint, renderedURL,
 	digest := sha256.New()
 	digest.Write(ep.Hash())
 	digest.Write(stringx.ToBytes(renderedURL))
+	// separates the url from the reference. Otherwise, different url and reference combinations result in the same key
+	digest.Write([]byte{0})
 	digest.Write(stringx.ToBytes(reference))
 
 	return hex.EncodeToString(digest.Sum(nil))
